@@ -201,8 +201,9 @@ check("C13", "exploration",
       "initialisers; arguments for value, const-value and const-reference parameters and partial instantiations) x 26 "
       "expressions (12 constant ones incl. functions of constants with chains 1-3; 14 depending on a mutable variable "
       "directly, through arrays/structs/inline-if, through functions of depth 1-3, statements, loops, arguments, meta "
-      "variables), plus free process parameters inside array sizes with bound twins; mutable cell must be rejected, constant "
-      "twin accepted.",
+      "variables), plus free process parameters inside array sizes with bound twins, plus 7 function-local contexts x 11 "
+      "dependence chains that stay inside one function body (parameters, local variables, local constants initialised from "
+      "run-time values); mutable cell must be rejected, constant twin accepted.",
       "Every declared type is used. Function-local initialisers are outside the statement. Small scope: chains <= 3.",
       "bounded-exhaustive matrix enumeration on the real type checker with a twin (differential) oracle",
       "DESIGN.md §3/C13")
